@@ -379,7 +379,8 @@ def component(tier='quick', seed=0, known=()):
             bad = 'untouched message does not decrypt to the original with %s: %s %s' % (opener, outcome, detail)
         if bad:
             total_bad += 1
-            kind = label.split(' ')[0] if label.split(' ')[0] in ('flip', 'truncate') else label
+            kind = label.split(' ')[0] if label.split(' ')[0] in ('flip', 'truncate') else ('downgrade+realign' if 'realigned' in label else 'downgrade'
+                                                                                            if label.startswith('downgrade') else label)
             sig = (outcome, opener.split(':')[0], kind, detail.split(':')[0][:40])
             case = {'message': MSGS[mi]['name'], 'mutation': label, 'opener': opener, 'outcome': outcome, 'forged_content': 'clear-text' in detail,
                     'blob_hex': blob, 'original_hex': MSGS[mi]['raw'].hex(), 'passphrase': PW, 'same_class_count': 1}
@@ -412,7 +413,7 @@ def component(tier='quick', seed=0, known=()):
             'outcomes': dict(outcomes),
             'exceptions_on_mutation': dict(exc.most_common()),
             'exceptions_on_wrong_secret': dict(secret_exc.most_common()),
-            'violations': violations[:6],
+            'violations': sorted(violations, key=lambda v: ("{'message'" not in v['what'], v['case']['outcome'] != 'DIFFERENT'))[:6],
             'violations_total': total_bad,
             'known_hits': known_hits}
 
